@@ -144,7 +144,7 @@ Qed.
 From Coq Require Import String.
 From Sakura.Model Require Import Base Cursor Event Song Token LexCore RunCore Compile.
 From Sakura.Gen Require Import VarRows.
-From Sakura.Proofs Require Import LoopParseP LoopExecP.
+From Sakura.Proofs Require Import LoopParseP LoopExecP FuelMonoP.
 
 (* soundness and completeness of the parser: a token list parses to p exactly when it is the flat text of p *)
 Theorem C05_parse_sound : forall (D : Type) (toks : list (ltok D)) (p : prog D), parse_loops toks = Some p -> flatten p = toks.
@@ -227,6 +227,15 @@ Example C05_lexed_example :
   end.
 Proof. split; [vm_compute; reflexivity|]. exact (conj (proj1 ex_parse) (conj (proj2 ex_parse) ex_run)). Qed.
 
+(* the fuel statement for the interpreter of the model itself, in BOTH fuels: `depth` bounds the nesting of the exec() calls
+   (Sub / tuplet blocks, macro calls, PLAY parts), `steps` the iterations of every while loop.  An answer other than
+   OutOfFuel - a song, a panic, Unsupported - is the answer for every larger depth and every larger step fuel
+   (C05_fuel_mono is the same for the step fuel of the generic machine). *)
+Theorem C05_exec_fuel_mono : forall (d steps : nat) (toks : list tok) (r : res song),
+  exec_f d steps toks r <> OutOfFuel -> forall d' steps' : nat, (d <= d')%nat -> (steps <= steps')%nat ->
+  exec_f d' steps' toks r = exec_f d steps toks r.
+Proof. exact exec_f_mono. Qed.
+
 Print Assumptions C05_flat_vs_structured.
 Print Assumptions C05_fuel_bound.
 Print Assumptions C05_fuel_mono.
@@ -251,3 +260,4 @@ Print Assumptions C05_break_tokens.
 Print Assumptions C05_lone_end.
 Print Assumptions C05_lone_break.
 Print Assumptions C05_unclosed_begin.
+Print Assumptions C05_exec_fuel_mono.
